@@ -8,4 +8,43 @@ def main():
     st = res["st"]["steps"][0]
     ok = st["outcome"] == "rows" and st["rows"] == [[2]]
     print("selftest vdrive:", "ok" if ok else f"FAILED {st}")
-    return 0 if ok else 1
+    ok2 = report_parser()
+    print("selftest report parser:", "ok" if ok2 else "FAILED")
+    return 0 if (ok and ok2) else 1
+
+
+SAMPLE_REPORTS = '''==================
+WARNING: ThreadSanitizer: data race (pid=1234)
+  Write of size 8 at 0x7b0400000000 by thread T1:
+    #0 glaredb_core::execution::operators::hash_join::hash_table::HashTable::insert_occupied::h0123456789abcdef /repo/crates/glaredb_core/src/execution/operators/hash_join/hash_table/mod.rs:310 (vdrive+0x123)
+    #1 std::thread::spawn /rustc/abc/library/std/src/thread/mod.rs:1 (vdrive+0x1)
+
+  Previous read of size 8 at 0x7b0400000000 by thread T2:
+    #0 glaredb_core::foo /repo/crates/glaredb_core/src/foo.rs:10 (vdrive+0x99)
+
+SUMMARY: ThreadSanitizer: data race /repo/crates/glaredb_core/src/x.rs:310 in insert_occupied
+==================
+==77== Conditional jump or move depends on uninitialised value(s)
+==77==    at 0x4C2A: glaredb_core::arrays::string::StringView::as_str (string.rs:55)
+==77==    by 0x4C2B: vdrive::run_case (main.rs:500)
+==77==
+==9==ERROR: AddressSanitizer: heap-buffer-overflow on address 0x60 at pc 0x55 bp 0x7 sp 0x7
+WRITE of size 49 at 0x60 thread T0
+    #0 0x5581 in __asan_memcpy (/verif/target/asan/vdrive+0x1)
+    #1 0x5582 in glaredb_core::arrays::row::row_layout::write_binary::h0123456789abcdef /repo/crates/glaredb_core/src/arrays/row/row_layout.rs:400:9
+SUMMARY: AddressSanitizer: heap-buffer-overflow (/verif/..) in __asan_memcpy
+error: Undefined Behavior: attempting a read access using <1234> at alloc99[0x8], but that tag does not exist in the borrow stack
+   --> /repo/crates/glaredb_core/src/util/cell.rs:44:9
+    = note: inside `glaredb_core::util::cell::UnsafeSyncCell::<T>::get` at /repo/crates/glaredb_core/src/util/cell.rs:44:9
+note: some details are omitted
+'''
+
+
+def report_parser():
+    """the stderr report parser of vf/run.py must recognise the four tools' formats and extract in-repo frames (C16 depends on it)"""
+    reps = {r["tool"]: r for r in run.sanitizer_reports(SAMPLE_REPORTS, "x")}
+    return (set(reps) == {"tsan", "memcheck", "asan", "miri"}
+            and reps["tsan"]["kind"] == "data race" and "insert_occupied" in reps["tsan"]["frames"][0]
+            and reps["asan"]["kind"] == "heap-buffer-overflow" and "write_binary" in reps["asan"]["frames"][0]
+            and "StringView::as_str" in reps["memcheck"]["frames"][0]
+            and any("cell.rs" in f for f in reps["miri"]["frames"]))
